@@ -22,7 +22,11 @@ def run(ctx):
             ref_err = None
         except RuntimeError as e:
             ref, ref_err = None, str(e)
-    bins, berr, units = json_units(ctx, quick, 6 if quick else 50)
+    import time
+    t0 = time.time()
+    log(f"[C05] theorems+model ready")
+    bins, berr, units = json_units(ctx, quick, 4 if quick else 50)
+    log(f"[C05] {len(units)} units prepared in {time.time() - t0:.0f}s")
     nvals = 10 if quick else 80
     nrand = 3 if quick else 20
     stats = {"schemas": 0, "kernel_rejected": 0, "types": 0, "unmodelled_types": 0, "write_ops": 0, "roundtrip_ops": 0,
@@ -138,6 +142,7 @@ def run(ctx):
 
     with ThreadPoolExecutor(max_workers=8) as ex:
         list(ex.map(work, units))
+    log(f"[C05] ops done at {time.time() - t0:.0f}s")
 
     pid = ctx.pid
     seen = set()
